@@ -32,7 +32,7 @@ Definition go_int_text (base : N) (mincol : nat) (pad comma : text) (commaint : 
   let '(out, neg, colon) :=
     match arg with
     | VInt z => (int_text base z, (z <? 0)%Z, colon)
-    | v => (prin1 v, true, false)          (* default: printed with Escape and Readably set *)
+    | v => (princ v, true, false)          (* default: not an integer, printed as by ~A (no sign, no commas) *)
     end in
   let out := if at_ && negb neg then "+" :: out else out in
   let out := if colon then go_group out comma commaint else out in
@@ -49,7 +49,7 @@ Definition go_roman (T : tables) (colon : bool) (digits : text) : option text :=
   match digits with
   | [] => None
   | d0 :: _ =>
-    if ascii_eqb d0 "-" then None                                        (* number too small *)
+    if ascii_eqb d0 "-" || (Nat.eqb (List.length digits) 1 && ascii_eqb d0 "0") then None   (* number too small *)
     else if Nat.ltb 4 (List.length digits) || (Nat.ltb 3 (List.length digits) && (code "3" <? code d0)%N)
     then None                                                            (* number too large *)
     else Some (List.concat (rev (go_roman_loop (if colon then t_oldroman T else t_roman T) (rev digits) 0)))
@@ -75,7 +75,7 @@ Fixpoint go_card_loop (T : tables) (trips : list text) (digits : text) (i : Z) (
         match d10 with
         | 0 => if negb (Nat.eqb d 0) then (false, words ++ [tnth one d]) else (true, words)
         | 1 => (false, words ++ [tnth teen d])
-        | _ => (false, words ++ [tnth one d] ++ [tnth (t_ten T) (d10 - 2)])
+        | _ => (false, (if Nat.eqb d 0 then words else words ++ [tnth one d]) ++ [tnth (t_ten T) (d10 - 2)])
         end in
       let one := t_one T in
       let '(zero, words, i) :=
@@ -90,15 +90,34 @@ Fixpoint go_card_loop (T : tables) (trips : list text) (digits : text) (i : Z) (
       | Some words => if (i <? 0)%Z then Some words else go_card_loop T rest digits i words one (t_teen T)
       end
   end.
+(* w[:len(w)-1] + "ieth" when w ends in y, w + "th" otherwise *)
+Definition go_ordinal_suffix (w : text) : text :=
+  if ascii_eqb (last w zero) "y" then removelast w ++ tx "ieth" else w ++ tx "th".
+(* if last := len(digits) - 1; colon && digits[last] == '0' && digits[last-1] != '1' { words[0] = ... } ;
+   None: index out of range (digits[-1], words[0] of an empty slice) *)
+Definition go_ordinal_first (colon : bool) (digits : text) (words : list text) : option (list text) :=
+  let lst := List.length digits - 1 in
+  if colon && ascii_eqb (ch_at digits lst) "0" then
+    (if Nat.eqb lst 0 then None
+     else if negb (ascii_eqb (ch_at digits (lst - 1)) "1")
+          then match words with [] => None | w :: ws => Some (go_ordinal_suffix w :: ws) end
+          else Some words)
+  else Some words.
 Definition go_english (T : tables) (colon : bool) (digits : text) : option text :=
   let '(neg, digits) := match digits with "-" :: r => (true, r) | _ => (false, digits) end in
   match digits with
   | ["0"] => Some (if colon then tx "zeroth" else tx "zero")
   | _ =>
+    if Nat.ltb (3 * List.length (t_triples T)) (List.length digits) then None     (* number too large: no scale word *)
+    else
     match go_card_loop T (t_triples T) digits (Z.of_nat (List.length digits) - 1)%Z []
                        (if colon then t_ordone T else t_one T) (if colon then t_ordteen T else t_teen T) with
     | None => None
-    | Some words => Some (join [sp] (rev (if neg then words ++ [tx "negative"] else words)))
+    | Some words =>
+      match go_ordinal_first colon digits words with
+      | None => None
+      | Some words => Some (join [sp] (rev (if neg then words ++ [tx "negative"] else words)))
+      end
     end
   end.
 
@@ -128,64 +147,37 @@ Definition go_fresh (n : Z) (out : text) : nat :=
   Z.to_nat n.
 
 (* ---- dirCase ----------------------------------------------------------------------------------- *)
-(* cases.Title(language.English) of golang.org/x/text on lower-cased ASCII (cases/map.go, titleCaser):
-   a cased letter is made upper case when the caser is not inside a word, lower case otherwise, and puts
-   it inside a word; every other character is copied, and ends the word when it is a "break": anything
-   but a letter, a digit, _ (ExtendNumLet) and the mid-word characters ' . : (Single_Quote, MidNumLet,
-   MidLetter); two mid-word characters in a row end the word as well. *)
-Definition is_mid (a : ascii) : bool := ascii_eqb a "'" || ascii_eqb a "." || ascii_eqb a ":".
-Definition no_break (a : ascii) : bool := is_alnum a || ascii_eqb a "_" || is_mid a.
-Fixpoint go_title (t : text) (midword : bool) : text :=
-  match t with
+(* appendCapitalized(dst, buf, firstOnly): buf is lower case already; the first character of each word (a run of letters
+   and digits), or of the first word only, is made upper case *)
+Fixpoint go_capitalized (buf : text) (firstOnly inWord done : bool) : text :=
+  match buf with
   | [] => []
-  | a :: t' =>
-      let '(a', m) := if is_alpha a then ((if midword then to_lower a else to_upper a), true)
-                      else (a, if no_break a then midword else false) in
-      let m := if is_mid a && (match t' with b :: _ => is_mid b | [] => false end) then false else m in
-      a' :: go_title t' m
+  | a :: t =>
+      if negb (is_alnum a) then a :: go_capitalized t firstOnly false (done || (inWord && firstOnly))
+      else if inWord || done then a :: go_capitalized t firstOnly inWord done
+      else to_upper a :: go_capitalized t firstOnly true done
   end.
-Fixpoint index_sp (t : text) (i : nat) : option nat :=      (* bytes.Index(out, " ") *)
-  match t with [] => None | a :: t' => if ascii_eqb a sp then Some i else index_sp t' (S i) end.
 Definition go_case (colon at_ : bool) (t : text) : text :=
   match colon, at_ with
   | true, true => map to_upper t
-  | true, false => go_title (map to_lower t) false
-  | false, true =>
-      let l := map to_lower t in
-      match index_sp l 0 with
-      | Some (S i) => go_title (firstn (S i) l) false ++ skipn (S i) l
-      | _ => go_title l false
-      end
+  | true, false => go_capitalized (map to_lower t) false false false
+  | false, true => go_capitalized (map to_lower t) true false false
   | false, false => map to_lower t
   end.
 
-(* ---- prefix parameters: readParam, slip.ReadCharacter ------------------------------------------- *)
+(* ---- prefix parameters: readParam ------------------------------------------------------------------- *)
 (* from pos up to the first byte the scan map marks; returns the new position *)
 Fixpoint go_read_param (T : tables) (fuel : nat) (s : text) (pos cend : nat) : nat :=
   match fuel with
   | O => pos
   | S f => if Nat.ltb pos cend then (if is_stop T (ch_at s pos) then pos else go_read_param T f s (S pos) cend) else pos
   end.
-Inductive rchar := RChar (a : ascii) | RCharErr | RCharUnsup.
-Definition go_read_character (src : text) : rchar :=
-  match src with
-  | [] => RCharErr
-  | [a] => RChar a
-  | a :: _ =>
-      let l := map to_lower src in
-      if text_eqb l (tx "space") then RChar sp
-      else if text_eqb l (tx "newline") then RChar nl
-      else if text_eqb l (tx "tab") then RChar (chr 9)
-      else if text_eqb l (tx "page") then RChar (chr 12)
-      else if text_eqb l (tx "return") then RChar (chr 13)
-      else if text_eqb l (tx "rubout") then RChar (chr 127)
-      else if text_eqb l (tx "backspace") then RChar (chr 8)
-      else if ascii_eqb a "u" || ascii_eqb a "U" then RCharUnsup        (* hexadecimal code point: not modelled *)
-      else RChar a                                                       (* utf8.DecodeRune: the first character *)
-  end.
 
 (* ---- scanDirBlock (control.go:405) --------------------------------------------------------------- *)
 Inductive scan_res := ScanAt (p : nat) | ScanErr | ScanFuel.
+(* case '-', '0' .. '9', ',', '#', 'v', 'V': a prefix parameter, the scanners remain in their tilde state *)
+Definition is_param_byte (b : ascii) : bool :=
+  is_digit b || ascii_eqb b "-" || ascii_eqb b "," || ascii_eqb b "#" || ascii_eqb b "v" || ascii_eqb b "V".
 Fixpoint go_scan_block (fuel : nat) (buf : text) (pos : nat) (opn cls : ascii) (colonOk : bool)
                        (colon at_ tilde : bool) : scan_res :=
   match fuel with
@@ -197,9 +189,12 @@ Fixpoint go_scan_block (fuel : nat) (buf : text) (pos : nat) (opn cls : ascii) (
       if tilde then
         if ascii_eqb b ":" then go_scan_block f buf pos opn cls colonOk true at_ true
         else if ascii_eqb b "@" then go_scan_block f buf pos opn cls colonOk colon true true
+        else if is_param_byte b then go_scan_block f buf pos opn cls colonOk colon at_ true
+        else if ascii_eqb b "'" then go_scan_block f buf (S pos) opn cls colonOk colon at_ true   (* the character after the quote is skipped *)
         else if ascii_eqb b opn then
           match go_scan_block f buf pos opn cls colonOk false false false with
-          | ScanAt p => go_scan_block f buf (p + 2) opn cls colonOk colon at_ true     (* the flags keep their values *)
+          | ScanAt p => (* pos = p + 2; if buf[pos-1] == ':' { pos++ }; tilde = false *)
+                        go_scan_block f buf (if ascii_eqb (ch_at buf (p + 1)) ":" then p + 3 else p + 2) opn cls colonOk colon at_ false
           | e => e
           end
         else if ascii_eqb b cls then
@@ -227,14 +222,16 @@ Fixpoint go_scan_cond (fuel : nat) (buf : text) (pos start : nat) (strs : list t
       if tilde then
         if ascii_eqb b ":" then go_scan_cond f buf pos start strs true at_ true defNext
         else if ascii_eqb b "@" then go_scan_cond f buf pos start strs colon true true defNext
+        else if is_param_byte b then go_scan_cond f buf pos start strs colon at_ true defNext
+        else if ascii_eqb b "'" then go_scan_cond f buf (S pos) start strs colon at_ true defNext
         else if ascii_eqb b ";" then
           match slice buf start (pos - 2) with
           | None => CondErr
-          | Some s => go_scan_cond f buf pos pos (strs ++ [s]) colon at_ true (if colon then true else defNext)
+          | Some s => go_scan_cond f buf pos pos (strs ++ [s]) colon at_ false (if colon then true else defNext)
           end
         else if ascii_eqb b "[" then
           match go_scan_cond f buf pos pos [] false false false false with
-          | CondAt _ _ p => go_scan_cond f buf (p + 2) start strs colon at_ true defNext
+          | CondAt _ _ p => go_scan_cond f buf (p + 2) start strs colon at_ false defNext
           | e => e
           end
         else if ascii_eqb b "]" then
@@ -269,7 +266,7 @@ Definition src_tables : tables := {|
                   map tx [""; "X"; "XX"; "XXX"; "XXXX"; "L"; "LX"; "LXX"; "LXXX"; "LXXXX"]%string;
                   map tx [""; "C"; "CC"; "CCC"; "CCCC"; "D"; "DC"; "DCC"; "DCCC"; "DCCCC"]%string;
                   map tx [""; "M"; "MM"; "MMM"; ""; ""; ""; ""; ""; ""]%string ];
-  t_triples := map tx [""; "thousand"; "million"; "billion"; "trillion"; "quadrillion"; "quantillion";
+  t_triples := map tx [""; "thousand"; "million"; "billion"; "trillion"; "quadrillion"; "quintillion";
                        "sextillion"; "septillion"; "octillion"; "nonillion"; "decillion"; "undecillion";
                        "duodecillion"; "tredecillion"; "quattuordecillion"; "quindecillion"; "sexdecillion";
                        "septendecillion"; "octodecillion"; "novemdecillion"; "vigintillion"]%string;
